@@ -149,11 +149,11 @@ func (r *Run) Finish(coverage map[string]any, assumptions []string) {
 
 	sort.Slice(r.viols, func(i, j int) bool { return r.viols[i].Key < r.viols[j].Key })
 
-	_ = os.MkdirAll(filepath.Join(Root(), "replay"), 0o777)
-	_ = os.MkdirAll(filepath.Join(Root(), "evidence"), 0o777)
+	_ = os.MkdirAll(outDir("replay"), 0o777)
+	_ = os.MkdirAll(outDir("evidence"), 0o777)
 
 	for i, v := range r.viols {
-		path := filepath.Join(Root(), "replay", fmt.Sprintf("%s-%d.json", r.ID, i+1))
+		path := filepath.Join(outDir("replay"), fmt.Sprintf("%s-%d.json", r.ID, i+1))
 		b, _ := json.MarshalIndent(map[string]any{"property": r.ID, "tier": r.Tier, "key": v.Key, "what": v.What, "replay": v.Replay}, "", " ")
 		_ = os.WriteFile(path, b, 0o666)
 		fmt.Printf("VIOLATION property=%s replay=%s\n", r.ID, path)
@@ -190,7 +190,7 @@ func (r *Run) Finish(coverage map[string]any, assumptions []string) {
 		"violations":  len(r.viols),
 	}
 	b, _ := json.MarshalIndent(ev, "", " ")
-	if err := os.WriteFile(filepath.Join(Root(), "evidence", r.ID+".json"), append(b, '\n'), 0o666); err != nil {
+	if err := os.WriteFile(filepath.Join(outDir("evidence"), r.ID+".json"), append(b, '\n'), 0o666); err != nil {
 		fmt.Fprintf(os.Stderr, "cannot write evidence: %s\n", err)
 		os.Exit(2)
 	}
@@ -329,4 +329,14 @@ func genericReplay(id, path string) {
 		os.Exit(1)
 	}
 	os.Exit(0)
+}
+
+
+// outDir is where evidence and replay files go: /verif/<kind>, or $VERIF_OUT/<kind> for auxiliary runs
+// (the race pass) that must not overwrite the evidence of the deciding run.
+func outDir(kind string) string {
+	if d := os.Getenv("VERIF_OUT"); d != "" {
+		return filepath.Join(d, kind)
+	}
+	return filepath.Join(Root(), kind)
 }
